@@ -86,18 +86,49 @@ let split_ops (body : string) : string list =
   let parts = Str.split (Str.regexp_string " ; ") body in
   List.filter (fun s -> String.trim s <> "") parts
 
+let show_raw = function
+  | RIter (es, sz) -> Printf.sprintf "%s %s" (show_ents es) (string_of_n sz)
+  | RState (st, f, c) -> Printf.sprintf "%s first=%s count=%s" (show_st st) (string_of_n f) (string_of_n c)
+  | RNoSavedLog -> "nostate"
+  | RSnap None -> "none"
+  | RSnap (Some ss) -> Printf.sprintf "%s %s %s" (string_of_n ss.ss_index) (string_of_n ss.ss_term) (string_of_n ss.ss_tag)
+  | RPanic -> "panic"
+
+(* the faithful model that is run next to the spec for a store kind (raw
+   observations, also outside the contract); None = the model says the code panicked *)
+type faithful = { mutable st : pdb option; step : pdb -> op -> pdb option;
+                  qry : pdb -> query -> ranswer * pdb }
+
+let faithful_of (kind : string) : faithful option =
+  match kind with
+  | "plain" -> Some { st = Some pdb_init; step = plain_step; qry = plain_query }
+  | _ -> None
+
 let run_case (id : string) (kind : string) (body : string) =
   let s = ref spec_init in
+  let fm = faithful_of kind in
   List.iteri (fun k text ->
     match parse_op text with
     | BadOp -> Printf.printf "%s %d ? bad\n" id k
     | Qry (name, q) ->
       if spec_wf_query !s q then Printf.printf "%s %d %s %s\n" id k name (show_answer (spec_answer !s q))
-      else Printf.printf "%s %d %s unspec\n" id k name
+      else Printf.printf "%s %d %s unspec\n" id k name;
+      (match fm with
+       | Some f ->
+         (match f.st with
+          | Some d -> let (r, d') = f.qry d q in f.st <- Some d';
+            Printf.printf "%s %d RAW %s\n" id k (show_raw r)
+          | None -> Printf.printf "%s %d RAW model-panicked-earlier\n" id k)
+       | None -> ())
     | Mut (name, o, extra) ->
       if extra && spec_wf_op !s o then begin
         s := spec_step !s o;
-        Printf.printf "%s %d %s ok\n" id k name
+        (match fm with
+         | Some f -> (match f.st with Some d -> f.st <- f.step d o | None -> ())
+         | None -> ());
+        (match fm with
+         | Some { st = None; _ } -> Printf.printf "%s %d %s panic\n" id k name
+         | _ -> Printf.printf "%s %d %s ok\n" id k name)
       end else Printf.printf "%s %d %s nonwf\n" id k name)
     (split_ops body)
 
